@@ -258,7 +258,7 @@ def run(ctx):
         "collector callbacks are pure functions of the value in the collector's cell and do not emit (no re-entrant registration)",
         "the current collector is resolved as C02 specifies (innermost scope, else global default); generated cases avoid finding F1's class",
         "deadlock-freedom is proved of the model and sampled on the code (hang detection under forced schedules): label partial",
-        "set_global_default's three internal steps and the steps that hold a reload cell's write lock have no yield point: forced schedules do not preempt inside them (the theorems do)"]
+        "the steps that hold a reload cell's write lock have no yield point: forced schedules do not preempt inside them (the theorems do)"]
     # ---- leg A
     rep.proof = coq_prove(ctx, "C04", ["theories/Properties/C04.vo"])
     # ---- build
@@ -308,6 +308,10 @@ def run(ctx):
                 ex_names.append("%s:%d" % (name, len(ils)))
             for il in ils:
                 cases.append(dict(base, sched=il + tail(2, 30)))
+        fam = sc.family_cases(sc.c04_families(), rng, thorough)
+        cases += fam
+        rep.count("race-family-schedules", len(fam))
+        rep.extra["race_families"] = sorted({c["family"] for c in fam})
         impl = sc.run_impl(ctx, binpath, cases, "sched")
         model = None
         try:
@@ -315,6 +319,7 @@ def run(ctx):
         except Exception as ex:
             rep.tie("model-eval:schedules", False, str(ex)[:300])
         compare_and_judge(ctx, rep, cases, impl, model, "forced-schedules", lambda c, im, fl: bool(fl.get("preempted")))
+        sc.worlds_wf(ctx, rep, hist + cases, "wf")
         unfinished = sum(1 for im in impl if im["finished"] is False)
         rep.tie("schedules-complete", unfinished == 0, "%d schedules ended before every thread finished (tail too short)" % unfinished)
         rep.count("forced-schedules", len(cases))
@@ -326,11 +331,11 @@ def run(ctx):
     return rep
 
 
-def load_corpus(hooks):
+def load_corpus(hooks, prop="C04"):
     """corpus/C04/*.case: case files in the harness format with a leading comment line `#py <python dict>`"""
     import ast
     out = []
-    d = os.path.join(vlib.VERIF, "corpus", "C04")
+    d = os.path.join(vlib.VERIF, "corpus", prop)
     if os.path.isdir(d):
         for f in sorted(os.listdir(d)):
             if f.endswith(".case"):
